@@ -258,6 +258,175 @@ def run_update(root, hashes, sort, watermark=None, fmt=None, profile=None, force
         logging.disable(logging.NOTSET)
 
 
+def outside_entries(root, sub):
+    """multiset of (manifest dir, entry) for entries whose path lies outside sub, MANIFEST entries excepted"""
+    out = []
+    for m, ents in C.all_manifests(root).items():
+        d = os.path.dirname(m)
+        for t in ents or []:
+            if t[0] in ('MANIFEST', 'TIMESTAMP') or len(t) < 2:
+                continue
+            full = os.path.normpath(os.path.join(d, C.unescape(t[1]))) if t[0] != 'DIST' else '<dist>' + t[1]
+            if t[0] == 'DIST' or not (full == sub or full.startswith(sub + '/')):
+                out.append((d, tuple(t)))
+    return sorted(out)
+
+
+def subdir_case(rng):
+    """C10: a sub-directory update leaves every entry for paths outside that directory alone (look-alike names included)"""
+    out = []
+    files = {'sub/a': b'a', 'sub/deep/b': b'bb', 'sub-old/keep': b'k', 'subfile.txt': b's', 'sub.extra/x': b'x',
+             'other/o': b'o', 'su': b'u', 'sub/p-1.ebuild': b'e'}
+    with C.Scratch() as root:
+        C.make_tree(root, files)
+        C.write_manifest(os.path.join(root, 'sub.extra', 'Manifest'), [C.entry_line('DATA', 'x', b'x', ['SHA1'])])
+        with open(os.path.join(root, 'sub.extra', 'Manifest'), 'rb') as fh:
+            sx = fh.read()
+        lines = [C.entry_line('MISC' if f == 'su' else 'DATA', f, c, ['SHA1']) for f, c in sorted(files.items()) if not f.startswith('sub.extra/')]
+        lines += [C.entry_line('MANIFEST', 'sub.extra/Manifest', sx, ['SHA1']), 'DIST sub-1.tar 3 SHA1 00', 'IGNORE subignored',
+                  'TIMESTAMP 2020-01-01T00:00:00Z', C.entry_line('DATA', 'sub-gone/file', b'zz', ['SHA1'])]
+        rng.shuffle(lines)
+        C.write_manifest(os.path.join(root, 'Manifest'), lines)
+        os.makedirs(os.path.join(root, 'sub-gone'))
+        with open(os.path.join(root, 'sub-gone', 'file'), 'wb') as fh:
+            fh.write(b'zz')
+        # edits inside sub only
+        with open(os.path.join(root, 'sub', 'a'), 'wb') as fh:
+            fh.write(b'changed')
+        with open(os.path.join(root, 'sub', 'new'), 'wb') as fh:
+            fh.write(b'n')
+        if rng.random() < 0.5:
+            os.unlink(os.path.join(root, 'sub', 'deep', 'b'))
+        before = outside_entries(root, 'sub')
+        before_files = C.snapshot(root, skip_manifests=True)
+        st = C.run_cli(['update', '--hashes', 'SHA1', os.path.join(root, 'sub')])
+        if st != 0:
+            out.append({'what': 'C10/C18 sub-directory update failed: %r' % (st,), 'key': 'subdir-status', 'props': ['C18', 'C10']})
+            return out
+        after = outside_entries(root, 'sub')
+        if before != after:
+            lost = [x for x in before if x not in after]
+            gained = [x for x in after if x not in before]
+            out.append({'what': 'C10 sub-directory update changed entries outside it: lost %s gained %s' % (lost[:3], gained[:3]),
+                        'key': 'subdir-outside', 'props': ['C10']})
+        if C.snapshot(root, skip_manifests=True) != before_files:
+            out.append({'what': 'C10 sub-directory update touched non-Manifest files', 'key': 'subdir-touched', 'props': ['C10']})
+        v = C.run_cli(['verify', root])
+        if v != 0:
+            out.append({'what': 'C03/C10 tree does not verify after a sub-directory update: %r' % (v,), 'key': 'subdir-verify', 'props': ['C03', 'C10']})
+    return out
+
+
+def dist_same_name_case(rng):
+    """C10: DIST entries survive the removal of a file entry of the same name; entry types survive a refresh"""
+    out = []
+    with C.Scratch() as root:
+        os.makedirs(os.path.join(root, 'pkg'))
+        with open(os.path.join(root, 'pkg', 'foo-1.tar.gz'), 'wb') as fh:
+            fh.write(b'tarball')
+        with open(os.path.join(root, 'pkg', 'metadata.xml'), 'wb') as fh:
+            fh.write(b'<x/>')
+        C.write_manifest(os.path.join(root, 'pkg', 'Manifest'),
+                         ['DIST foo-1.tar.gz 7 SHA1 aa', 'DIST bar-2.tar.gz 3 SHA1 bb', 'IGNORE junk',
+                          C.entry_line('DATA', 'foo-1.tar.gz', b'tarball', ['SHA1']),
+                          C.entry_line('MISC', 'metadata.xml', b'old', ['SHA1'])])
+        with open(os.path.join(root, 'pkg', 'Manifest'), 'rb') as fh:
+            pm = fh.read()
+        C.write_manifest(os.path.join(root, 'Manifest'), [C.entry_line('MANIFEST', 'pkg/Manifest', pm, ['SHA1'])])
+        os.unlink(os.path.join(root, 'pkg', 'foo-1.tar.gz'))
+        st = C.run_cli(['update', '--hashes', 'SHA1', root])
+        ents = C.read_manifest_entries(os.path.join(root, 'pkg', 'Manifest')) if st == 0 else []
+        dist = sorted(t[1] for t in ents if t[0] == 'DIST')
+        if st != 0 or dist != ['bar-2.tar.gz', 'foo-1.tar.gz'] or not any(t[0] == 'IGNORE' for t in ents):
+            out.append({'what': 'C10 DIST/IGNORE lines after removing a same-named file entry: status %r, %r' % (st, ents), 'key': 'dist-same-name',
+                        'props': ['C10']})
+        tags = {t[1]: t[0] for t in ents if t[0] in ('DATA', 'MISC', 'EBUILD', 'AUX')}
+        if st == 0 and tags.get('metadata.xml') != 'MISC':
+            out.append({'what': 'C10 entry type of a refreshed entry changed: %r' % (tags,), 'key': 'type-kept', 'props': ['C10']})
+    return out
+
+
+def fault_update_case(rng):
+    """C06: an update that hits an I/O error (read of an unregistered Manifest, open of a data file, directory listing) fails and has written nothing"""
+    import builtins
+    import errno
+    out = []
+    n = 0
+    for where in ('read-unregistered-manifest', 'open-data-file', 'scandir', 'fstat-unregistered-manifest'):
+        for err in (errno.EIO, errno.EACCES):
+            with C.Scratch() as root:
+                C.make_tree(root, {'a': b'a', 'sub/b': b'b', 'sub/c': b'c'})
+                C.write_manifest(os.path.join(root, 'Manifest'), [C.entry_line('DATA', 'a', b'a', ['SHA1'])])
+                C.write_manifest(os.path.join(root, 'sub', 'Manifest'), [C.entry_line('DATA', 'b', b'b', ['SHA1'])])
+                before = C.snapshot(root)
+                real_open, real_os_open, real_scandir, real_fstat = builtins.open, os.open, os.scandir, os.fstat
+                target_m = os.path.join(root, 'sub', 'Manifest')
+                target_d = os.path.join(root, 'sub', 'c')
+
+                class Failing:
+                    def __init__(self, f):
+                        self.f = f
+
+                    def __getattr__(self, name):
+                        return getattr(self.f, name)
+
+                    def __enter__(self):
+                        return self
+
+                    def __exit__(self, *a):
+                        self.f.close()
+
+                    def __iter__(self):
+                        raise OSError(err, os.strerror(err))
+
+                    def read(self, *a):
+                        raise OSError(err, os.strerror(err))
+
+                    def readline(self, *a):
+                        raise OSError(err, os.strerror(err))
+
+                def fake_open(p, *a, **k):
+                    f = real_open(p, *a, **k)
+                    if where == 'read-unregistered-manifest' and isinstance(p, (str, os.PathLike)) and os.fspath(p) == target_m:
+                        return Failing(f)
+                    return f
+
+                def fake_os_open(p, *a, **k):
+                    if where == 'open-data-file' and os.fspath(p) == target_d:
+                        raise OSError(err, os.strerror(err), p)
+                    return real_os_open(p, *a, **k)
+
+                def fake_scandir(p='.'):
+                    if where == 'scandir' and os.path.normpath(os.fspath(p)) == os.path.join(root, 'sub'):
+                        raise OSError(err, os.strerror(err), p)
+                    return real_scandir(p)
+
+                def fake_fstat(fd):
+                    if where == 'fstat-unregistered-manifest':
+                        try:
+                            if os.path.realpath('/proc/self/fd/%d' % fd) == os.path.realpath(target_m):
+                                raise OSError(err, os.strerror(err))
+                        except FileNotFoundError:
+                            pass
+                    return real_fstat(fd)
+                builtins.open, os.open, os.scandir, os.fstat = fake_open, fake_os_open, fake_scandir, fake_fstat
+                try:
+                    st = run_update(root, ['SHA1'], False)
+                finally:
+                    builtins.open, os.open, os.scandir, os.fstat = real_open, real_os_open, real_scandir, real_fstat
+                n += 1
+                after = C.snapshot(root)
+                if st == 0:
+                    out.append({'what': 'C06 update succeeded although %s failed with errno %d' % (where, err), 'key': 'update-fault:' + where, 'props': ['C06']})
+                elif after != before:
+                    out.append({'what': 'C06 update failed at %s (errno %d) but had already written: %s' % (
+                        where, err, sorted(k for k in set(after) | set(before) if after.get(k) != before.get(k))[:3]),
+                        'key': 'update-fault-wrote:' + where, 'props': ['C06']})
+                elif not str(st).startswith('OSError'):
+                    out.append({'what': 'C06/C18 update fault %s gave %r' % (where, st), 'key': 'update-fault-exc:' + where, 'props': ['C06', 'C18']})
+    return out, n
+
+
 def canonical_case(rng):
     """C12: with sorting and at most one Manifest per directory the bytes written do not depend on the
     enumeration order nor on the order of the entries in the previous Manifests"""
@@ -374,6 +543,17 @@ def main():
             if len(samples) < 2:
                 samples.append({k: desc.get(k) for k in ('prior', 'edits', 'hashes', 'sort', 'status')})
             viol.extend(v)
+    if prop in ('C10', 'C18', 'C03'):
+        for i in range(6 if tier == 'quick' else 60):
+            viol.extend(subdir_case(rng))
+            viol.extend(dist_same_name_case(rng))
+            evals += 2
+            distinct.add('subdir%d' % i)
+    if prop in ('C06',):
+        v, k = fault_update_case(rng)
+        viol.extend(v)
+        evals += k
+        distinct.update('fault%d' % j for j in range(k))
     if prop in ('C12',):
         for i in range(20 if tier == 'quick' else 300):
             viol.extend(canonical_case(rng))
